@@ -26,6 +26,14 @@ def _apply(repo_src, v, dst):
     shutil.copytree(os.path.join(repo_src, "fibertree"),
                     os.path.join(dst, "fibertree"),
                     ignore=shutil.ignore_patterns("__pycache__", "*.pyc"))
+    if v.get("patch"):
+        verif = os.path.dirname(os.path.dirname(os.path.abspath(__file__)))
+        r = subprocess.run(["patch", "-p1", "-s", "-d", dst, "-i",
+                            os.path.join(verif, v["patch"])],
+                           stdout=subprocess.PIPE, stderr=subprocess.STDOUT, text=True)
+        if r.returncode != 0:
+            return "patch-does-not-apply: %s" % r.stdout[-200:]
+        return None
     path = os.path.join(dst, "fibertree", v["file"])
     with open(path, encoding="utf-8") as f:
         src = f.read()
